@@ -13,6 +13,7 @@ def run(res, tier, replay=None):
     # (d) an owner keeps what it owns alive: type rows trace every reference field (shared with C02.R5) - a
     # port whose fileno slot is not traced gets its descriptor finalized while the port is still in use
     f3.r5_type_table(prog, res, prop="C16")
+    c16.derived_cpointers(prog, res)
     res.assumptions = common.ASSUMPTIONS
     res.explanation = (
         "C16 structural clauses: (a) on every CFG path of sexp_gc the calls occur in the order mark*, weak reset, "
@@ -20,7 +21,9 @@ def run(res, tier, replay=None):
         "key as its single weak slot, the value as the one extra slot, neither strongly traced, and some function that "
         "reads the weak columns can reach the marker (value retention); (c) every close/fclose of a fileno's fd or a "
         "port's stream, in any unit incl. generated stubs, is dominated by the owner's openp test and the store "
-        "openp=0, and fileno.count has one decrement site; (d) every reference field of every type row is inside the range "
+        "openp=0; fileno.count has one decrement site, is only ever incremented / decremented on objects not allocated on the "
+        "spot, and goes up in the function that stores a fileno into a port; (e) a non-owning cpointer that wraps memory reached "
+        "through another cpointer's C value (generated struct-field getters, readdir) names that object as its parent; (d) every reference field of every type row is inside the range "
         "the marker traces (the clause shared with C02.R5: an untraced owner slot lets the owned object be finalized while "
         "its owner is live). Not decided: when a key becomes unreachable, descriptor "
         "exhaustion behaviour.")
@@ -30,4 +33,5 @@ def run(res, tier, replay=None):
             "C16.b": lambda p, r: f3.c16b_ephemeron(p, r, callgraph.CallGraph(p)),
             "C16.c": lambda p, r: c16.release_once(p, r),
             "C16.d": lambda p, r: f3.r5_type_table(p, r, prop="C16"),
+            "C16.e": lambda p, r: c16.derived_cpointers(p, r, floor=0),
         })
